@@ -185,6 +185,25 @@ impl ZarrChainStorage {
     }
 
     /// Store a parameter value, writing to Zarr when buffer is full
+    /// Number of events recorded so far per event dimension.
+    ///
+    /// Not every statistic of an event dimension is populated on every event (some are only
+    /// stored on request, some never), so the count is the largest one over the statistics
+    /// of that dimension, not the count of an arbitrary one of them.
+    fn event_counts(&self) -> HashMap<String, u64> {
+        let mut counts: HashMap<String, u64> = HashMap::new();
+        for (field, dim) in &self.event_dim_of_stat {
+            let n = self
+                .stats_buffers
+                .get(field.as_str())
+                .map(|b| b.total_pushed())
+                .unwrap_or(0);
+            let entry = counts.entry(dim.clone()).or_insert(0);
+            *entry = (*entry).max(n);
+        }
+        counts
+    }
+
     fn push_param(&mut self, name: &str, value: Value, is_warmup: bool) -> Result<()> {
         if ["draw", "chain"].contains(&name) {
             return Ok(());
@@ -235,17 +254,7 @@ impl ChainStorage for ZarrChainStorage {
     ) -> Result<()> {
         let is_first_draw = self.last_sample_was_warmup && !info.tuning;
         if is_first_draw {
-            {
-                let mut seen = std::collections::HashSet::new();
-                for (field, dim) in &self.event_dim_of_stat {
-                    if seen.insert(dim.as_str()) {
-                        if let Some(buf) = self.stats_buffers.get(field.as_str()) {
-                            self.warmup_event_counts
-                                .insert(dim.clone(), buf.total_pushed());
-                        }
-                    }
-                }
-            }
+            self.warmup_event_counts = self.event_counts();
             for (key, buffer) in self.draw_buffers.iter_mut() {
                 if let Some(chunk) = buffer.reset() {
                     store_zarr_chunk(&self.arrays.warmup_draw_arrays[key], chunk, self.chain)?;
@@ -276,15 +285,7 @@ impl ChainStorage for ZarrChainStorage {
 
     /// Flush remaining samples and finalize storage
     fn finalize(self) -> Result<Self::Finalized> {
-        let mut seen = std::collections::HashSet::new();
-        let mut sample_counts: HashMap<String, u64> = HashMap::new();
-        for (field, dim) in &self.event_dim_of_stat {
-            if seen.insert(dim.as_str()) {
-                if let Some(buf) = self.stats_buffers.get(field.as_str()) {
-                    sample_counts.insert(dim.clone(), buf.total_pushed());
-                }
-            }
-        }
+        let sample_counts: HashMap<String, u64> = self.event_counts();
 
         for (key, mut buffer) in self.draw_buffers.into_iter() {
             if let Some(chunk) = buffer.reset() {
@@ -326,22 +327,14 @@ impl ChainStorage for ZarrChainStorage {
     }
 
     fn inspect(&self) -> Result<Option<Self::Finalized>> {
-        let mut seen = std::collections::HashSet::new();
         let mut counts = HashMap::new();
-        for (field, dim) in &self.event_dim_of_stat {
-            if seen.insert(dim.as_str()) {
-                let s = self
-                    .stats_buffers
-                    .get(field.as_str())
-                    .map(|b| b.total_pushed())
-                    .unwrap_or(0);
-                let w = self
-                    .warmup_event_counts
-                    .get(dim.as_str())
-                    .copied()
-                    .unwrap_or(0);
-                counts.insert(dim.clone(), (w, s));
-            }
+        for (dim, s) in self.event_counts() {
+            let w = self
+                .warmup_event_counts
+                .get(dim.as_str())
+                .copied()
+                .unwrap_or(0);
+            counts.insert(dim, (w, s));
         }
         Ok(Some(counts))
     }
